@@ -288,9 +288,14 @@ func (g *gen) cleanText() []byte {
 	for i := range b {
 		b[i] = byte('!' + g.r.Intn(90))
 	}
-	// never look like OTR
+	// never look like OTR at the start ...
 	if b[0] == '?' {
 		b[0] = 'x'
+	}
+	// ... but anything may occur inside a text, for instance what the debugging aid of the library
+	// reacts to when it is switched on
+	if g.r.Intn(12) == 0 && n > 12 {
+		copy(b[4+g.r.Intn(n-10):], "?OTR!")
 	}
 	return b
 }
@@ -612,7 +617,7 @@ func (g *gen) forgeryFromDisclosedKeys(w *world) {
 // C04 / C17: payloads that do not fit the 16 bit length field of a TLV (extra key usage data, SMP
 // question) must be refused by the call; they must never go out with a wrapped length, after which
 // the peer reads the rest of the value as further TLVs (a disconnect, say)
-func (g *gen) oversizedPayloads(w *world) {
+func (g *gen) oversizedPayloads(w *world, which int) {
 	w.parties = map[string]*party{}
 	w.dead = false
 	version := 2 + g.r.Intn(2)
@@ -628,12 +633,23 @@ func (g *gen) oversizedPayloads(w *world) {
 	if !a.c.IsEncrypted() || !b.c.IsEncrypted() || w.dead {
 		return
 	}
-	which := g.r.Intn(2)
 	if which == 0 {
-		data := make([]byte, 65532+g.r.Intn(40))
-		copy(data[(4+len(data))%65536-4:], []byte{0, 1, 0, 0}) // what follows the wrapped length: a disconnect TLV
-		_, ts, _ := w.extraKey(a, 1, data)
-		l.enqueue(a, ts)
+		// every length around the boundary: up to 65531 bytes fit next to the 4 byte usage word
+		for _, n := range []int{65531, 65532, 65533, 65535, 65536, 65532 + g.r.Intn(40)} {
+			data := make([]byte, n)
+			if n > 65531 {
+				copy(data[(4+len(data))%65536:], []byte{0, 1, 0, 0}) // what follows the wrapped length: a disconnect TLV
+			}
+			_, ts, err := w.extraKey(a, 1, data)
+			if n <= 65531 && (err != nil || len(ts) == 0) {
+				olog.viol("C17", "legal-usage-data-refused", fmt.Sprintf("UseExtraSymmetricKey with %d bytes of usage data (fits a TLV) failed: %v", n, err))
+			}
+			l.enqueue(a, ts)
+			l.settle(10)
+			if !b.c.IsEncrypted() {
+				break
+			}
+		}
 	} else {
 		q := bytes.Repeat([]byte("q"), 64400+g.r.Intn(1500))
 		ts, _ := w.smpStart(a, string(q), []byte("s"))
@@ -715,7 +731,8 @@ func init() {
 				g.forgeryFromDisclosedKeys(w)
 			}
 			if i%3 == 1 {
-				g.oversizedPayloads(w)
+				g.oversizedPayloads(w, 0)
+				g.oversizedPayloads(w, 1)
 			}
 			if i%3 == 2 {
 				w.parties = map[string]*party{}
